@@ -19,7 +19,16 @@
     C17_partial_exclusion              an anchored writer excludes everyone: probe refused, open / create /
                                        try_open fail
     C17_partial_until_first_rename     in every trace without a rename step (no commit has replaced a file
-                                       yet) the full property holds
+                                       yet) and without a timed-out downgrade the full property holds
+    C17_mode_belief                    lock mode switching: FileLock::mode() never over-claims — a handle
+                                       that says Exclusive (outside a downgrade call, no switch timed out)
+                                       holds the exclusive flock; a handle inside or after an upgrade that
+                                       was not granted still says Shared; writes (put, stage) are steps of
+                                       `live` handles only
+    C17_counterexample_downgrade_timeout   a timed-out DOWNGRADE leaves a writable handle without any
+                                       lock next to a second writer — before any commit (model only: the
+                                       window is the few microseconds between LOCK_UN and the first
+                                       try_lock_shared; not reproduced on the real code)
   PART II — theorems about the REPAIR (second model definition; show the repair is sound and that
   half of it is not)
     C17_repaired_inv, C17_repaired, C17_counterexample_swap_only
@@ -200,28 +209,29 @@ def anchored (s : State) (h : Handle) : Prop := s.dir h.path = some h.lockIno
 
 /-- C17_inv_partial (current code, every reachable state, any number of handles and steps):
     (1) the flock table is consistent (A2 as an invariant),
-    (2) every live writable handle holds an exclusive flock, through its own `Memvid.lock`
-        description, on the inode it opened — the lock DOES hold for the handle's lifetime, but on
-        the inode, not on the path,
+    (2) every live writable handle (no lock mode switch of which timed out, `lost = false`) holds an
+        exclusive flock, through its own `Memvid.lock` description, on the inode it opened — the lock
+        DOES hold for the handle's lifetime, but on the inode, not on the path,
     (3) two live writable handles never have the same lock inode,
     (4) per path at most one live writable handle is anchored. -/
 theorem C17_inv_partial (t : List Step) :
     let s := run .current init t
     Compat s.locks ∧
-    (∀ a ha, s.hnd a = some ha → ha.phase.writer = true →
+    (∀ a ha, s.hnd a = some ha → ha.phase.writer = true → ha.lost = false →
       ⟨a, ha.lockSer, ha.lockIno, .ex⟩ ∈ s.locks) ∧
     (∀ a b ha hb, s.hnd a = some ha → s.hnd b = some hb → ha.phase.writer = true →
-      hb.phase.writer = true → a ≠ b → ha.lockIno ≠ hb.lockIno) ∧
+      hb.phase.writer = true → ha.lost = false → hb.lost = false → a ≠ b → ha.lockIno ≠ hb.lockIno) ∧
     (∀ a b ha hb, s.hnd a = some ha → s.hnd b = some hb → ha.phase.writer = true →
-      hb.phase.writer = true → ha.path = hb.path → anchored s ha → anchored s hb → a = b) := by
+      hb.phase.writer = true → ha.lost = false → hb.lost = false → ha.path = hb.path →
+      anchored s ha → anchored s hb → a = b) := by
   intro s
   have inv : InvC s := runC_inv init_invC t
-  refine ⟨inv.compat, fun a ha h1 w => (inv.hOk a ha h1).writerLock w,
-    fun a b ha hb h1 h2 w1 w2 hne => inv.lockInoDistinct h1 h2 w1 w2 hne, ?_⟩
-  intro a b ha hb h1 h2 w1 w2 hp an1 an2
+  refine ⟨inv.compat, fun a ha h1 w l => (inv.hOk a ha h1).writerLock w l,
+    fun a b ha hb h1 h2 w1 w2 l1 l2 hne => inv.lockInoDistinct h1 h2 w1 w2 l1 l2 hne, ?_⟩
+  intro a b ha hb h1 h2 w1 w2 l1 l2 hp an1 an2
   by_cases hab : a = b
   · exact hab
-  · have hd := inv.lockInoDistinct h1 h2 w1 w2 hab
+  · have hd := inv.lockInoDistinct h1 h2 w1 w2 l1 l2 hab
     unfold anchored at an1 an2
     rw [hp, an2] at an1
     exact absurd (Option.some.inj an1).symm hd
@@ -230,8 +240,8 @@ theorem C17_inv_partial (t : List Step) :
     alive, a flock probe of the path is refused and `Memvid::open`, `create` and `try_open` of the
     path by anyone else fail. -/
 theorem C17_partial_exclusion (t : List Step) (a p : Nat) (ha : Handle)
-    (h1 : (run .current init t).hnd a = some ha) (w : ha.phase.writer = true) (hp : ha.path = p)
-    (an : anchored (run .current init t) ha) :
+    (h1 : (run .current init t).hnd a = some ha) (w : ha.phase.writer = true) (hl : ha.lost = false)
+    (hp : ha.path = p) (an : anchored (run .current init t) ha) :
     let s := run .current init t
     probeEx s p = some false ∧
     ∀ b, s.hnd b = none →
@@ -239,7 +249,7 @@ theorem C17_partial_exclusion (t : List Step) (a p : Nat) (ha : Handle)
       (apiTryOpen .current s b p).2 = false := by
   intro s
   have inv : InvC s := runC_inv init_invC t
-  have he := (inv.hOk a ha h1).writerLock w
+  have he := (inv.hOk a ha h1).writerLock w hl
   unfold anchored at an
   rw [hp] at an
   refine ⟨?_, ?_⟩
@@ -261,12 +271,20 @@ theorem C17_partial_exclusion (t : List Step) (a p : Nat) (ha : Handle)
       apiTryOpen_refused _ hb an (not_grantable he hne rfl rfl)⟩
 
 /-- C17_partial_until_first_rename (current code): in every trace in which no rename step occurs
-    (no commit has replaced a file yet — puts, opens, failed or aborted commits and drops in any
-    interleaving are allowed) the FULL property holds. -/
-theorem C17_partial_until_first_rename (t : List Step) (ht : ∀ st ∈ t, st.isRename = false) :
+    (no commit has replaced a file yet) and no downgrade times out — puts, opens, downgrades, upgrades
+    (granted or timed out), failed or aborted commits and drops in any interleaving are allowed — the
+    FULL property holds. -/
+theorem C17_partial_until_first_rename (t : List Step)
+    (ht : ∀ st ∈ t, st.isRename = false ∧ st.isDgFail = false) :
     OneWriter (run .current init t) := by
   have inv : InvC (run .current init t) := runC_inv init_invC t
   have nr : NR (run .current init t) := runNR init_NR t ht
+  have nl : ∀ {a : Nat} {h : Handle}, (run .current init t).hnd a = some h → h.phase.writer = true →
+      h.lost = false := by
+    intro a h h1 w
+    cases hl : h.lost
+    · rfl
+    · rcases (nr a h h1).2.2.2 hl with hp | hp <;> rw [hp] at w <;> simp [Phase.writer] at w
   have wr : ∀ {a : Nat} {h : Handle}, (run .current init t).hnd a = some h → h.phase.writer = true →
       h.phase ≠ .opening := by
     intro a h _ w hc
@@ -278,19 +296,62 @@ theorem C17_partial_until_first_rename (t : List Step) (ht : ∀ st ∈ t, st.is
     · exact hab
     · obtain ⟨d1, l1, _⟩ := nr a ha h1
       obtain ⟨d2, l2, _⟩ := nr b hb h2
-      have := inv.lockInoDistinct h1 h2 w1 w2 hab
+      have := inv.lockInoDistinct h1 h2 w1 w2 (nl h1 w1) (nl h2 w2) hab
       rw [l1 (wr h1 w1), l2 (wr h2 w2)] at this
       rw [hp, d2] at d1
       exact absurd (Option.some.inj d1).symm this
   · intro a ha h1 w
     obtain ⟨d1, l1, _⟩ := nr a ha h1
-    refine ⟨_, (inv.hOk a ha h1).writerLock w, rfl, rfl, ?_⟩
+    refine ⟨_, (inv.hOk a ha h1).writerLock w (nl h1 w), rfl, rfl, ?_⟩
     rw [d1, l1 (wr h1 w)]
   · intro a ha h1 hp
     obtain ⟨d1, l1, _⟩ := nr a ha h1
     have w : ha.phase.writer = true := by rw [hp]; rfl
-    refine ⟨(inv.hOk a ha h1).writerLock w, ?_, (l1 (wr h1 w)).symm⟩
+    refine ⟨(inv.hOk a ha h1).writerLock w (nl h1 w), ?_, (l1 (wr h1 w)).symm⟩
     rw [d1, l1 (wr h1 w)]
+
+/-- C17_mode_belief (current code, every reachable state): `FileLock::mode()` never over-claims.
+    (1) A handle whose mode says Exclusive — outside a downgrade call and with no timed-out switch —
+        holds the exclusive flock on its lock inode.
+    (2) A handle inside an upgrade attempt, or after one that timed out, still says Shared (`mode` is
+        assigned only after the lock was granted), so a retried mutation attempts the lock again.
+    (3) The steps that write (`put`, `stage`) change nothing unless the handle is in phase `live`. -/
+theorem C17_mode_belief (t : List Step) :
+    let s := run .current init t
+    (∀ a h, s.hnd a = some h →
+      (h.mode = some .ex → h.phase ≠ .downgrading → h.lost = false →
+        ⟨a, h.lockSer, h.lockIno, .ex⟩ ∈ s.locks) ∧
+      (h.phase = .upgrading ∨ h.phase = .reader → h.mode = some .sh)) ∧
+    (∀ a h, s.hnd a = some h → h.phase ≠ .live →
+      step .current s (.put a) = s ∧ step .current s (.stage a) = s) := by
+  intro s
+  have inv : InvC s := runC_inv init_invC t
+  refine ⟨fun a h h1 => (inv.hOk a h h1).belief, ?_⟩
+  intro a h h1 hp
+  constructor <;> simp [step, h1, hp]
+
+/-- a second opener waits in its retry loop while the first handle downgrades: the opener's attempt
+    lands between the downgrade's LOCK_UN and its first try_lock_shared, the downgrade times out -/
+def witnessDowngrade : List Step :=
+  .mkfile 7 :: openSteps 0 7 ++ [.openFd 1 7 false, .flockEx 1, .dgUnlock 0, .flockEx 1, .dgLock 0, .dgFail 0]
+
+/-- C17_counterexample_downgrade_timeout (current code, model only): without any rename, a timed-out
+    downgrade returns Err with `mode` = Exclusive and `read_only` = false but no lock held — two
+    writable handles for one path. -/
+theorem C17_counterexample_downgrade_timeout :
+    (∀ st ∈ witnessDowngrade, st.isRename = false) ∧
+    isWriter (run .current init witnessDowngrade) 0 7 = true ∧
+    isWriter (run .current init witnessDowngrade) 1 7 = true := by decide
+
+/-- an upgrade that times out because a reader holds the shared lock: the handle stays read-only,
+    says Shared, and the retry after the reader left takes the lock before the put -/
+example :
+    let s1 := (apiPut .current (apiOpenRO .current (apiDowngrade .current
+      (run .current init (.mkfile 7 :: openSteps 0 7)) 0) 3 7).1 0)
+    s1.2 = false ∧ (∃ h, s1.1.hnd 0 = some h ∧ h.mode = some .sh ∧ h.phase = .reader) ∧
+    (apiPut .current (step .current s1.1 (.drop 3)) 0).2 = true ∧
+    probeEx (apiPut .current (step .current s1.1 (.drop 3)) 0).1 7 = some false := by
+  refine ⟨by decide, ⟨_, rfl, by decide, by decide⟩, by decide, by decide⟩
 
 /-- non-vacuity: the handle that created the file and wrote to it is an anchored writer before its
     first commit, and no longer anchored after it -/
